@@ -273,7 +273,7 @@ func (t *timeComp) Generate(rng *rand.Rand, n int, emit func(Case)) {
 		}
 		emit(Case{Ops: ops, Tag: "zone-sequence"})
 	}
-	for i := 0; i < 2+n/4000; i++ {
+	for i := 0; i < 2+n/4000 && i < 12; i++ {
 		za, zb := zones[0][rng.Intn(5)], zones[0][rng.Intn(5)]
 		for zb == za {
 			zb = zones[0][rng.Intn(5)]
